@@ -87,8 +87,23 @@ func (r *Report) finish(evidPath string, verbose bool) int {
 		fmt.Println(s)
 	}
 	bindingErr := false
+	var bindingViol []*FuncResult
 	for _, fr := range r.Results {
 		if fr.Err != "" {
+			// the contract of this function bound to the code and was proved when the baseline was accepted; now it
+			// no longer binds (or the function is outside the supported subset): its obligations cannot be
+			// established any more - reported as a violation of that function's contract, not as a pass
+			wasProved := 0
+			for name, st := range r.Baseline {
+				if st == "proved" && strings.HasPrefix(name, fr.Unit+"/") {
+					wasProved++
+				}
+			}
+			if wasProved > 0 {
+				say("  FAILED  %s: the contract no longer binds to the code (%d obligations of this function were proved in the accepted baseline): %s", fr.Unit, wasProved, fr.Err)
+				bindingViol = append(bindingViol, fr)
+				continue
+			}
 			say("UNDECIDED-BINDING %s: %s", fr.Unit, fr.Err)
 			bindingErr = true
 		}
@@ -163,6 +178,17 @@ func (r *Report) finish(evidPath string, verbose bool) int {
 		if i%max(1, len(r.Obls)/12) == 0 && len(samples) < 14 {
 			samples = append(samples, map[string]interface{}{"obligation": o.Name, "kind": o.Kind, "clause": trunc(o.Src, 200), "status": o.Status, "solver": o.Solver, "time_s": round3(o.Time), "query_bytes": o.Size})
 		}
+	}
+	for _, fr := range bindingViol {
+		o := &Obligation{Func: fr.Unit, Name: fr.Unit + "/binding", Kind: "binding", Src: fr.Err, Status: "unknown", Answers: map[string]string{"govc": "contract does not bind: " + fr.Err}}
+		path, found := r.replay(o)
+		suffix := ""
+		if !found {
+			suffix = " no-failing-input-found"
+		}
+		say("VIOLATION property=%s replay=%s obligation=%s%s", r.Prop, path, o.Name, suffix)
+		violations++
+		code = 1
 	}
 	for _, sv := range r.StandinViolations {
 		dir := filepath.Join(r.ReplayDir, r.Prop)
